@@ -53,6 +53,9 @@ var specialGens = map[string]func(r *rng, tier string, res *Result){
 	"C19": genC19,
 }
 
+// noModel: skip the comparison with the extracted model (oracle-only search runs)
+var noModel bool
+
 func runCheck(args []string) int {
 	prop := args[0]
 	fl := flag.NewFlagSet("check", flag.ExitOnError)
@@ -60,8 +63,9 @@ func runCheck(args []string) int {
 	tier := fl.String("tier", "quick", "quick|thorough")
 	out := fl.String("out", "-", "result json")
 	model := fl.String("model", modelBin, "model driver binary")
-	noModel := fl.Bool("nomodel", false, "skip the model comparison")
+	noModelF := fl.Bool("nomodel", false, "skip the model comparison")
 	_ = fl.Parse(args[1:])
+	noModel = *noModelF
 	modelBin = *model
 	r := &rng{*seed*0x9e3779b97f4a7c15 + 12345}
 	res := &Result{Property: prop, Seed: *seed, Tier: *tier, Rule: rules[prop]}
@@ -97,7 +101,7 @@ func runCheck(args []string) int {
 			_ = os.WriteFile(fmt.Sprintf("%s/%s-%d.ops", d, prop, i), b, 0644)
 		}
 	}
-	runCases(res, cases, impls, !*noModel)
+	runCases(res, cases, impls, !noModel)
 	for i := 0; i < len(cases) && i < 2; i++ {
 		res.sample(cases[i], 25)
 	}
